@@ -253,6 +253,52 @@ def lens_around(rng, n):
                        rng.randrange(0, 3 * n + 3)])
 
 
+# ---------------------------------------------------------------------------------------
+# Branch map: every special-case branch of the anchored Rust code and the generated class
+# that executes it (class strings are "<first operand class>/<second operand class>").
+#  dense.rs
+#   degree(): is_zero -> 0 | assert last != 0          every result (harness prints degree())
+#   evaluate: is_zero | point 0 | Horner               d_evaluate x POINTS (0 included), 'zero'
+#   from_coefficients_vec: pop loop, assert            d_from_vec (trailing zeros, all_zero, empty)
+#   Add &d+&d: self 0 | other 0 | deg>= | deg<         d_add: zero/*, */zero, one_shorter, one_longer;
+#        truncation after cancel                       negated, negated+low, opposite_lead
+#   AddAssign &d: other 0 | self 0 | longer | else     d_add_assign, same classes
+#   AddAssign (f,&d): other 0 | self 0 (f=0 -> trunc)  d_add_assign_scaled: */zero, zero/*, f=0 x zero (F06),
+#        | deg< resize | cancel                        one_longer, 'cancelling' (b = -a/f + low)
+#   Sub &d-&d: self 0 | other 0 | deg>= | deg<         d_sub: zero/*, */zero, equal, equal+low, same_lead, one_longer
+#   SubAssign &d: self 0 | other 0 | deg>= | deg<      d_sub_assign, same classes
+#   Mul<F>: is_zero | elem 0 | map                     d_scale x felem (0, 1, -1, small, random)
+#   naive_mul / Mul: zero operands | loop              d_naive_mul, d_mul: zero/*, const, rand (+ F5 exhaustive)
+#   Add &d+&s: self 0 -> into | other 0 | in-range     d_add_sparse: zero/*, */szero, s_below, s=dense,
+#        get_mut | extend+push | truncate              s_above, s_mixed_above, s_lead_opposite (cancels)
+#   AddAssign &s: other 0 | self 0 | pow<=lhs | pow>   d_add_assign_sparse, same classes
+#   Sub &d-&s / SubAssign &s: self 0 | other 0 |       d_sub_sparse, d_sub_assign_sparse: zero/*, */szero,
+#        upper_coeffs (other deg > lhs) | in-range |   s_above, s_mixed_above, s_below, s_lead_same, s_top2_same,
+#        leading term cancels (F05)                    s=dense; 0 -= s0 excluded (DEFECT-1)
+#   mul_by_vanishing_poly                              len<n, <=2n, >2n x h=1 / h=-1 / gen / rand (F07)
+#   divide_by_vanishing_poly: len<n | loop 0 times |   len<n, len in [n,2n) , >2n (loop runs), multiple_of_vanishing
+#        loop >= 1 times (cur_pow = c^i)               with coset offsets (F07)
+#  sparse.rs
+#   degree(), evaluate: zero | table of bitlen(deg)    s_evaluate with maxdeg in {0,1,2,3,7,8,15,16,17,63,64,100}
+#   Add: self 0 | other 0 | Less | Equal (sum 0 /      s_add/s_add_owned/s_add_assign: negated (all cancel), negated+low,
+#        non-0) | Greater | append self | append other  opposite_lead, equal, stretch (disjoint supports), srand
+#   AddAssign (f,&s) (F03), SubAssign (F02)            s_add_assign_scaled f in {0,1,-1,rand}; s_sub_assign
+#   Mul<F>, Neg                                        s_scale, s_neg
+#   mul: zero | BTreeMap and_modify / or_insert |      s_mul: (1+x)(1-x)-type cancellations are in the F5 exhaustive
+#        filter zero sums (F04)                        set and 'negated'/'same_top_half' partners
+#   from_coefficients_vec: pop | sort | assert         s_from_vec: shuffled, trailing zero entries
+#   From<Sparse> for Dense, From<Dense> for Sparse     s_to_dense, d_to_sparse (+ every zero-operand branch above)
+#  mod.rs
+#   divide_with_q_and_r: self 0 | deg< | loop          divide_xx: zero, lower_degree, same_degree, multiple (r = 0),
+#        (dense / sparse on both sides)                multiple+rem, vs_vanishing (sparse x^n - c divisor), const divisor
+#   eval_over_domain_helper: sparse | dense zero |     s_eval_domain; d_eval_domain_{ref,owned}: len 0, <=n (one chunk,
+#        one chunk | several chunks, offset 1 /        possibly shorter than n), <=2n, >2n x h=1 / h!=1
+#        offset != 1, Borrowed / Owned
+#  evaluations/univariate/mod.rs
+#   interpolate / interpolate_by_ref                   zero_evals, const_evals (truncation), short_vector, rand_evals
+#   + - * / (and -assign), * F                         ev_*: felem entries include 0 (division by zero entry, O6)
+# ---------------------------------------------------------------------------------------
+
 DENSE_BIN = ['d_add', 'd_add_assign', 'd_sub', 'd_sub_assign', 'd_naive_mul', 'd_mul']
 SPARSE_BIN = ['s_add', 's_add_owned', 's_add_assign', 's_sub_assign', 's_mul']
 MIXED = ['d_add_sparse', 'd_add_assign_sparse', 'd_sub_sparse', 'd_sub_assign_sparse']
@@ -303,8 +349,6 @@ def exhaustive_f5(tier):
             for op in ['s_add', 's_sub_assign', 's_mul']:
                 yield op, [[p], sa, sb], 'F5-exhaustive'
             for op in MIXED:
-                if is_defect1(op, a, sb):
-                    continue    # DEFECT-1
                 yield op, [[p], a, sb], 'F5-exhaustive'
             if b:
                 yield 'divide_dd', [[p], a, b], 'F5-exhaustive'
@@ -421,8 +465,6 @@ def gen(rng, tier):
         a, ca = poly(rng, p)
         s, cs = spartner(rng, p, a)
         op = rng.choice(MIXED)
-        if is_defect1(op, a, s):
-            continue    # DEFECT-1
         yield op, [[p], a, s], ca + '/' + cs
     # ---- division: deg a < deg b, equal degrees, exact multiples, constants, monic and
     # non-monic divisors, sparse divisors of vanishing shape, zero dividend
